@@ -221,27 +221,27 @@ CHECKS = {
 
 # additions of the third session: (technique suffix, text suffix) per property
 EXTRA = {
-    "C01": ("; plus every PAIR of the rows that change how a record is emitted on a fixed layout-sensitive family (incl. 3-member records with a trailing flexible array)",
+    "C01": ("; plus every PAIR of the rows that change how a record is emitted on a fixed layout-sensitive family (incl. 3-member records with a trailing flexible array); renaming callbacks; module-structure shapes alone in their header",
             " Option pairs (two deviations from the defaults) are enumerated exhaustively over the emission-changing rows."),
-    "C02": ("; plus exhaustive enumeration of the same records for 10 foreign target triples, decided by rustc const evaluation for the target (per-target sysroot) of assertions built from clang's constant tables; C++ empty-base shapes",
+    "C02": ("; plus exhaustive enumeration of the same records for 10 foreign target triples, decided by rustc const evaluation for the target (per-target sysroot) of assertions built from clang's constant tables; C++ empty-base shapes; anonymous over-aligned members; C++ layout shapes for foreign targets",
             " Foreign targets: size / alignment / offsets as rustc computes them for T vs clang --target=T, nothing executed."),
-    "C03": ("; the sweep is also executed for big-endian and 32-bit targets under the miri interpreter against an independent integer model; the record family is also run for foreign targets (miri vs bytes cut from clang --target objects) and as C++ class templates",
+    "C03": ("; the sweep is also executed for big-endian and 32-bit targets under the miri interpreter against an independent integer model; the record family is also run for foreign targets (miri vs bytes cut from clang --target objects) and as C++ class templates; one run longer than 2^16 bits; typeof-spelled base types",
             " The cfg!(target_endian = \"big\") branches are executed (interpreted) on every explored triple; big-endian C semantics are bound through clang-built object images."),
-    "C04": ("; plus per-target symbol tables (ELF, Mach-O) of asm-labelled and C++ declarations, and same-name signatures with different calling conventions",
+    "C04": ("; plus per-target symbol tables (ELF, Mach-O) of asm-labelled and C++ declarations, and same-name signatures with different calling conventions; pointers to typedefs of function types",
             " Symbol identity is also decided for other triples from clang --target object files (undefined-symbol tables), without execution."),
-    "C05": ("; every integer kind as fixed underlying enum type; clang arguments by every route (after --, environment, target-specific variable, split) with and without the macro fallback", ""),
-    "C06": ("; records beyond 1 MiB / 16 MiB; pointer-only instantiations of union templates", ""),
-    "C07": ("; plus large graphs (9 000 records behind one typedef, about 27 000 IR items) with the deciding declaration first / middle / last", ""),
-    "C08": ("; variadic function pointers at the limit; user-excluded types (exact / regex, global / namespaced / nested, derived and hand-written impls, control types)", ""),
-    "C09": ("; counted-repetition pattern forms; records containing the definitions of named inner types with and without no-recursive-allowlist", ""),
-    "C10": ("; names mapped by name (stdint / stddef) when blocklisted; blocklist-file through .., symlinked directories and files", ""),
-    "C11": ("; collision-twin jobs (same names, unit sizes, wrapper symbols, one wrapper path, hash-ordered blocks) and every length-2 history also with one thread per generation",
+    "C05": ("; every integer kind as fixed underlying enum type; clang arguments by every route (after --, environment, target-specific variable, split) with and without the macro fallback; enum representation on foreign targets", ""),
+    "C06": ("; records beyond 1 MiB / 16 MiB; pointer-only instantiations of union templates; target through the build-script environment; offsets past 2^31 / 2^32 bits", ""),
+    "C07": ("; plus large graphs (9 000 records behind one typedef, about 27 000 IR items) with the deciding declaration first / middle / last; anonymous-member graphs; every C++ graph under other spellings of the language", ""),
+    "C08": ("; variadic function pointers at the limit; user-excluded types (exact / regex, global / namespaced / nested, derived and hand-written impls, control types); several bit-field units per record; plain-data records under no-recursive-allowlist", ""),
+    "C09": ("; counted-repetition pattern forms; records containing the definitions of named inner types with and without no-recursive-allowlist; option-dependent closures (no-size_t-is-usize, file + item allowlists)", ""),
+    "C10": ("; names mapped by name (stdint / stddef) when blocklisted; blocklist-file through .., symlinked directories and files; blocklisted types behind typedefs with hand-written impls on; bulk pattern families", ""),
+    "C11": ("; collision-twin jobs (same names, unit sizes, wrapper symbols, one wrapper path, hash-ordered blocks) and every length-2 history also with one thread per generation; second group of twins (asm labels under -D, C then C++ system headers, failed formatter first, replaces + anonymous types)",
             " Histories force collisions: jobs re-use the names, sizes and paths of other jobs with different definitions."),
-    "C12": ("; the depth family also through the release and the dev-profile CLI binaries; generations on later threads", ""),
-    "C13": ("; regex values containing list separators; the single rows again with BINDGEN_EXTRA_CLANG_ARGS set; headers found only along an include path", ""),
-    "C14": ("; trigger headers for records beyond 1 MiB and for --target=i686-pc-windows-msvc (thiscall vtables, stdcall / fastcall / vectorcall)", ""),
-    "C15": ("; formatter behaviours that flood stderr; string-dominated large bindings for the real formatters", ""),
-    "C16": ("; wrappers for other target triples checked against clang --target objects (llvm-nm); in-process histories of generations with same-named static functions", ""),
+    "C12": ("; the depth family also through the release and the dev-profile CLI binaries; generations on later threads; sequences of different inputs in one process; calling conventions on symbol-decorating targets", ""),
+    "C13": ("; regex values containing list separators; the single rows again with BINDGEN_EXTRA_CLANG_ARGS set; headers found only along an include path; relative header paths with file patterns; carve-out pairs", ""),
+    "C14": ("; trigger headers for records beyond 1 MiB and for --target=i686-pc-windows-msvc (thiscall vtables, stdcall / fastcall / vectorcall); core float aliases; target/edition call order through the library", ""),
+    "C15": ("; formatter behaviours that flood stderr; string-dominated large bindings for the real formatters; failing formatters after multi-byte output", ""),
+    "C16": ("; wrappers for other target triples checked against clang --target objects (llvm-nm); in-process histories of generations with same-named static functions; option changes on an untouched header; wrapper/function type compatibility per target", ""),
     "C17": ("; several in-memory inputs and mixes of real and in-memory inputs", ""),
     "C18": ("; atoms that declare one link symbol under several Rust names (20-atom alphabet)", ""),
 }
